@@ -4,6 +4,7 @@
 //! answer   {"ir": R, "peg": R, "rowan": W}            (a list of such objects for "srcs")
 //!   R = {"ok": tree} | {"err": message} | {"panic": text}
 //!   W = {"errors": n} | {"panic": text}
+//!   plus "lex_error": bool -- jrsonnet-lexer produced an error token for the text
 //! `tree` is the jrsonnet_ir::Expr with every source position erased, as nested JSON arrays
 //! (written by an exhaustive visitor: a new Expr variant is a compile error, not a silent gap).
 use std::panic::{catch_unwind, AssertUnwindSafe};
@@ -206,7 +207,13 @@ fn one(src: &str) -> Value {
 		let (_file, errors) = jrsonnet_rowan_parser::parse(src);
 		json!({"errors": errors.len()})
 	});
-	json!({"ir": ir, "peg": peg, "rowan": rowan})
+	// does the shared lexer flag the text (what ir-parser checks before parsing)?
+	let lex_error = guarded(|| {
+		Value::Bool(
+			jrsonnet_lexer::Lexer::new(src).any(|l| l.kind.error_description().is_some()),
+		)
+	});
+	json!({"ir": ir, "peg": peg, "rowan": rowan, "lex_error": lex_error})
 }
 
 pub fn handle(req: &Value) -> Value {
